@@ -1,0 +1,83 @@
+//go:build verif
+
+// Contracts for the fvc verification-condition generator in /verif (comment-only file).
+//
+// C18, part 5: core.execFunc - "every response handed back belongs to the request it is returned for, also while other
+// requests time out or are cancelled".
+//
+// execFunc starts a worker goroutine and waits for its completion or for the context. The generator has no model of
+// goroutines and channels: at the `go` statement it havocs what the worker closure may write, a channel operation yields
+// an unconstrained value, the index a `select` yields is unconstrained. What CAN be stated is the sequential part, as
+// assertions at the calls (atcall):
+//   caller (execFunc)    the worker is handed a PRIVATE copy of the raw request (an object acquired by this call, filled by
+//                        CopyTo from c.req.RawRequest) and the retry configuration of THIS client; the caller gives the
+//                        Response and the error channel back to their pools only when the worker can no longer touch them:
+//                        after it received the worker's completion, or after it took the completion flag ITSELF.
+//   worker (execFunc$1)  sends its private copy, receives into its private response, follows the request's redirect limit;
+//                        copies into the caller's Response only after it won the completion flag; releases its two
+//                        private objects, nothing else.
+// NOT EXPRESSIBLE: the channel sends (`errCh <- err` is an SSA Send instruction, not a call: no atcall site), the
+// interleavings of the two goroutines, that the select index is 0 or 1.
+// The completion flag `done` is an int32 that both sides access with sync/atomic only: the two operations used here get
+// their sequential meaning (mw_C18.spec) - the clauses use the RESULT of the operation ("did I take the flag?"), never the
+// value of the flag at another time.
+
+package client
+
+//@ props C18
+
+// getRetryConfig: the worker works with a copy of the retry configuration of this client (nil when none is configured),
+// read under the client's read lock.
+//@ func (*Client).RetryConfig
+//@   pure
+//@   ensures result == c.retryConfig
+//@ func (*core).getRetryConfig
+//@   requires client-lock-free: !held(c.client.mu)
+//@   ensures no-retry-configured-no-retry: old(c.client.retryConfig) == nil ==> result == nil
+//@   ensures the-clients-retry-configuration-is-passed-on-as-a-copy: old(c.client.retryConfig) != nil ==> result != nil && result != old(c.client.retryConfig) && result.InitialInterval == old(c.client.retryConfig.InitialInterval) && result.MaxBackoffTime == old(c.client.retryConfig.MaxBackoffTime) && result.Multiplier == old(c.client.retryConfig.Multiplier) && result.MaxRetryCount == old(c.client.retryConfig.MaxRetryCount)
+
+// The caller's side.
+// (nosafety panic:explicit - go/ssa lowers a blocking `select` without default to a chain of index tests that ends in
+// panic("blocking select matched no case"); the generator leaves the select index unconstrained, so that unreachable panic
+// looks reachable. Not a path of the Go program.)
+//@ func (*core).execFunc
+//@   nosafety panic:explicit
+// (no lock at all rather than "not the client's": acquireErrChan cannot be put under contract - its pool's element type
+// `chan error` is not expressible in typeis - so the heap, and with it which object c.client is, is havocked at that call.)
+//@   requires the-caller-holds-no-lock: forallI(l, !held(l))
+//@   atcall @fasthttp.(*Request).CopyTo: the-worker-gets-a-private-copy-of-this-requests-raw-request: arg0 == c.req.RawRequest && arg1 == reqv && reqv == last(@fasthttp.AcquireRequest)
+// (reqv is the object fasthttp's pool handed to THIS call - by the pool model an object nobody else holds, so not the raw
+// request of c.req. `reqv != c.req.RawRequest` itself is not provable: the generator does not know that a pointer stored in
+// the heap before the acquisition was allocated before it.)
+//@   atcall (*core).getRetryConfig: the-worker-never-works-on-the-requests-own-raw-request--it-gets-a-copy-made-by-this-call: called("@fasthttp.AcquireRequest") && called("@fasthttp.(*Request).CopyTo")
+//@   atcall (*core).getRetryConfig: the-copy-is-the-object-acquired-by-this-call: reqv != nil && reqv == last(@fasthttp.AcquireRequest)
+//@   atcall @context.Context.Done: retry-configuration-of-this-client-is-what-the-worker-was-started-with: cfg == last((*core).getRetryConfig)
+// Ownership of the pooled Response (and of the pooled error channel, given back by the deferred releaseErrChan): once the
+// worker has taken the completion flag it WILL write resp.RawResponse and send on errCh. The caller may give them back
+// only after it has received that send (error branch: err != nil; on the success branch resp is handed to the caller's
+// caller, not released) or when its own Swap took the flag (old value 0: the worker's CompareAndSwap will fail).
+//@   atcall ReleaseResponse: response-given-back-only-when-the-worker-can-no-longer-write-it: err != nil || (called("@atomic.SwapInt32") && last("@atomic.SwapInt32") != 1)
+
+// (ENGINE: in an atcall clause the Go formal names of the callee shadow the enclosing function's names; old(x) un-shadows a
+// PARAMETER of the enclosing function but not a captured variable of a closure. fasthttp's Do(req, resp) on receiver c and
+// CopyTo(dst) on receiver resp shadow the worker's captured `c` and `resp`: "the client is c.client.fasthttp", "the redirect
+// limit is c.req.maxRedirects", "the destination is resp.RawResponse" cannot be written.)
+// The worker's side. Its captured variables: reqv (the private copy), cfg, err, c, done, errCh, resp (the caller's Response).
+// respv is its own local (also captured by its two inner closures).
+//@ func (*core).execFunc$1
+//@   atcall @fasthttp.(*Client).Do: sends-its-private-copy-and-receives-into-its-private-response: arg1 == reqv && arg2 == respv && arg2 == last(@fasthttp.AcquireResponse)
+//@   atcall @fasthttp.(*Client).DoRedirects: sends-its-private-copy-and-follows-the-requests-redirect-limit: arg1 == reqv && arg2 == respv && arg2 == last(@fasthttp.AcquireResponse) && arg3 > 0
+//@   atcall @retry.NewExponentialBackoff: retries-with-the-configuration-it-was-handed: cfg != nil
+// Only the side that took the completion flag writes the caller's Response (and, not expressible, sends on errCh): the
+// caller may already have given the Response back to its pool - another request may own it.
+//@   atcall @fasthttp.(*Response).CopyTo: only-the-winner-of-the-completion-flag-fills-the-callers-response: called("@atomic.CompareAndSwapInt32") && last("@atomic.CompareAndSwapInt32") && arg0 == respv
+//@   atcall @atomic.CompareAndSwapInt32: takes-the-flag-once-from-free-to-taken: !called("@atomic.CompareAndSwapInt32") && o == 0 && n == 1
+// The retried step: the same three clauses.
+//@ func (*core).execFunc$1$2
+//@   atcall @fasthttp.(*Client).Do: sends-its-private-copy-and-receives-into-its-private-response: arg1 == reqv && arg2 == respv
+//@   atcall @fasthttp.(*Client).DoRedirects: sends-its-private-copy-and-follows-the-requests-redirect-limit: arg1 == reqv && arg2 == respv && arg3 > 0
+// When it is done the worker gives back its two private objects - never the raw request of c.req, never the caller's
+// Response.
+//@ func (*core).execFunc$1$1
+//@   atcall @fasthttp.ReleaseRequest: gives-back-its-private-request-copy: arg0 == reqv
+//@   atcall @fasthttp.ReleaseResponse: gives-back-its-private-response: arg0 == respv
